@@ -55,6 +55,8 @@ def configs(tier):
             # user-defined subclasses of the stock edge types are requested types like any other
             out.append({"mode": "full", "count": c, "edge": "SD", "conn": "default"})
             out.append({"mode": "full", "count": c, "edge": "SU", "conn": "default"})
+            # ... also one whose constructor names its ends differently (edge types are called positionally)
+            out.append({"mode": "full", "count": c, "edge": "RD", "conn": "default"})
     for c in range(1, 9 if tier == "quick" else 13):
         out.append({"mode": "adjdict", "count": c, "edge": "DE", "conn": "default"})
         if c <= 10:     # with a symbolic connectivity z3 needs > 60 s from count 12 on (an 'unknown' is never a pass)
@@ -67,7 +69,7 @@ def required_markers(tier):
     return ["full", "adjdict", "lemma"]
 
 
-EDGE = {"DE": "DirectedEdge", "UE": "UnDirectedEdge", "TE": "OtherTE", "SD": "SubDE", "SU": "SubUE"}
+EDGE = {"DE": "DirectedEdge", "UE": "UnDirectedEdge", "TE": "OtherTE", "SD": "SubDE", "SU": "SubUE", "RD": "RoadEdge"}
 
 CONN_SRC = '''
 class Prod:
